@@ -105,7 +105,7 @@ func main() {
 		}
 		var pr func(f *ssa.Function)
 		pr = func(f *ssa.Function) {
-			allInstrs(f, func(in ssa.Instruction) {
+			allInstrsIn(f, func(in ssa.Instruction) {
 				if ci, ok := in.(ssa.CallInstruction); ok {
 					fmt.Printf("%s\t%s\t%s\n", c.Pos(instrPos(in)), fnKey(f), describeInstr(ci.(ssa.Instruction)))
 				}
